@@ -223,7 +223,7 @@ macro_rules! prefix_array_set {
                         let src_ptr = ptr.add(index);
                         let dest_ptr = ptr.add(index + 1);
                         // move the bytes to create space for the new value
-                        std::ptr::copy(src_ptr, dest_ptr, self.values.len() - index);
+                        std::ptr::copy(src_ptr, dest_ptr, self.len() - index);
                     }
                     // insert the new value
                     self.values[index] = value;
@@ -263,7 +263,7 @@ macro_rules! prefix_array_set {
                             let src_ptr = ptr.add(index + 1);
                             let dest_ptr = ptr.add(index);
                             // move the bytes after the value being removed
-                            std::ptr::copy(src_ptr, dest_ptr, self.values.len() - index);
+                            std::ptr::copy(src_ptr, dest_ptr, self.len() - index - 1);
                         }
                     }
                     *self.length -= 1;
